@@ -68,6 +68,21 @@ def observe(case):
             ev["err"] = type(e).__name__
         calls.append(ev)
 
+    if kind == "p":          # primality alone, over a wider exhaustive range
+        n = case[1]
+        add("isprime", n, 0, lambda: E.is_prime(n, ctx))
+        add("nextprime", n, 0, lambda: E.next_prime(n, ctx))
+        return {"calls": calls}
+    if kind == "again":
+        # history independence: the battery, then every other one-argument element of the table on the same
+        # number (results ignored), then the battery again -- a builtin must not depend on what ran before
+        first = observe(("n", case[1], case[2]))["calls"]
+        for key, fn in neighbours():
+            try:
+                common.with_alarm(lambda _: fn(case[1], ctx=ctx), None, 2)
+            except BaseException:  # noqa: BLE001
+                pass
+        return {"calls": first + observe(("n", case[1], case[2]))["calls"]}
     if kind == "n":
         n = case[1]
         add("isprime", n, 0, lambda: E.is_prime(n, ctx))
@@ -112,6 +127,27 @@ def observe(case):
     return {"calls": [c for c in calls if c is not None]}
 
 
+_NEIGH = []
+
+
+def neighbours():
+    """every one-argument element function of the table, minus the ones that print, read, execute or sleep"""
+    if not _NEIGH:
+        import vyxal.elements as E
+
+        from . import c08, extract
+
+        elems, _ = extract.element_table()
+        seen = set()
+        for e in elems:
+            if e["arity"] == 1 and e["fn"] and e["fn"] not in seen and hasattr(E, e["fn"]):
+                seen.add(e["fn"])
+                if e["key"] in ("Ė", "E", "†", "Q", ",", "…", "₴", "¨,", "¨…", "¨U", "øḊ") or c08.uses_randomness(e["fn"]):
+                    continue
+                _NEIGH.append((e["key"], getattr(E, e["fn"])))
+    return _NEIGH
+
+
 def main(tier):
     t0 = time.time()
     rng = common.rng(17)
@@ -123,6 +159,8 @@ def main(tier):
     cs += [("pair", n, m) for n in range(0, lim + 1) for m in range(0, lim + 1)]
     for _ in range(300 if tier == "quick" else 3000):
         cs.append(("n", rng.randint(top, 10 ** 9), tier))
+    cs += [("p", n, tier) for n in range(top + 1, (20000 if tier == "quick" else 200000) + 1)]
+    cs += [("again", n, tier) for n in (range(1, 400, 7) if tier == "quick" else range(1, 3000, 3))]
     with common.Scratch(PID) as s:
         mc = tlc.model_check(s, "MC_NumTheory", cfg="MC_NumTheory", workers=16)
         if not mc["ok"]:
